@@ -25,7 +25,11 @@ build() {
   cp "$REPO/go.sum" go.sum 2>/dev/null
   # hooks: build tag "verif" + overlay-injected files (see MANIFEST.hooks)
   OVL="$BIN.overlay.json"
-  python3 "$VERIF/overlay/gen.py" "$REPO" "$VERIF/overlay" > "$OVL" || exit 2
+  python3 "$VERIF/overlay/gen.py" "$REPO" "$VERIF/overlay" > "$OVL.base" || exit 2
+  # package-level variables of the current tree: generated registry files (globgen) + the virtual package verifglob
+  (cd "$VERIF/globgen" && go build -o "$VERIF/bin/globgen" .) || { echo "HARNESS-ERROR: globgen build failed" >&2; exit 2; }
+  rm -rf "$BIN.globals"; "$VERIF/bin/globgen" -repo "$REPO" -out "$BIN.globals" -verifglob "$VERIF/overlay/verifglob/verifglob.go" > "$OVL.glob" || { echo "HARNESS-ERROR: globgen failed" >&2; exit 2; }
+  python3 -c "import json,sys; a=json.load(open(sys.argv[1]))['Replace']; a.update(json.load(open(sys.argv[2]))); print(json.dumps({'Replace':a}))" "$OVL.base" "$OVL.glob" > "$OVL" || exit 2
   if ! go build -tags verif -overlay "$OVL" -o "$BIN" ./cmd/pvmc 2> "$BIN.build.log"; then
     grep -v 'sqlite3-binding\|return pNew\|Select standin\|\^~\|declared here\|^# github.com/mattn' "$BIN.build.log" >&2
     echo "HARNESS-ERROR: build failed" >&2
